@@ -277,6 +277,31 @@ pub fn run(ctx: &Ctx) {
         v
     }, check_bilinear);
 
+    ctx.listed("exact_values_with_short_coefficients", "pairing values g^b = e([b]P1, P2) found by walking b = 1, 2, ... with the reference (one Fp12 multiplication per step) until a coefficient has one leading zero byte, and until one has two (about 1 step in 5500): the 384-byte encoding must keep every coefficient at 32 bytes", || {
+        let pr = r9::params();
+        let g = r9::pairing(&pr.p1, &pr.p2);
+        let mut acc = g.clone();
+        let (mut one, mut two) = (Vec::new(), Vec::new());
+        let mut b = 1u64;
+        while (one.len() < 2 || two.len() < 2) && b < 60_000 {
+            let lead = acc.0.iter().map(|c| 32 - (c.bits() as usize + 7) / 8).max().unwrap_or(0);
+            if lead == 1 && one.len() < 2 {
+                one.push(b);
+            }
+            if lead >= 2 && two.len() < 2 {
+                two.push(b);
+            }
+            acc = acc.mul(&g);
+            b += 1;
+        }
+        let mut v = Vec::new();
+        for b in one.into_iter().chain(two.into_iter()) {
+            v.push(PairCase { a: gen::hex32(&BigUint::one()), b: gen::hex32(&BigUint::from(b)), zp: gen::hex32(&BigUint::one()), zq0: gen::hex32(&BigUint::one()), zq1: gen::hex32(&BigUint::zero()) });
+            v.push(PairCase { a: gen::hex32(&BigUint::one()), b: gen::hex32(&BigUint::from(b)), zp: gen::hex32(&BigUint::from(2u32)), zq0: gen::hex32(&BigUint::from(3u32)), zq1: gen::hex32(&BigUint::from(5u32)) });
+        }
+        v
+    }, check_exact);
+
     ctx.generated("exact_generated", "proptest (a, b, Z_P, Z_Q): library pairing == reference pairing, all 384 bytes", ctx.tier.pick(1_500, 20_000), || {
         (scalar(), scalar(), zrep()).prop_map(|(a, b, (zp, zq0, zq1))| PairCase { a, b, zp, zq0, zq1 })
     }, check_exact);
